@@ -3,6 +3,7 @@
 //! canonical replies), `oracle.txt` (implementation-level oracle failures) and `stats.json`.
 mod common;
 mod c17;
+mod c10;
 
 use common::*;
 use std::path::PathBuf;
@@ -26,6 +27,7 @@ fn main() {
     let mut out = Out::new(&dir);
     match prop.as_str() {
         "c17" => c17::run(&mut out, tier, seed, replay),
+        "c10" => c10::run(&mut out, tier, seed, replay),
         _ => {
             eprintln!("unknown property {}", prop);
             std::process::exit(2);
